@@ -64,13 +64,13 @@ def fromRecord (ref : Seq) (alts : List Seq) : Option LocusM :=
   else none
 
 /-- `as_allelic`: `alleles[i].get(s, -1)` -/
-def alleleIndex (als : List Char) (c : Char) : Int :=
+def allelicIndex (als : List Char) (c : Char) : Int :=
   if c ∈ als then (als.idxOf c : Nat) else -1
 
 /-- `character.as_allelic(chars[:, idx], self.alleles)`; `none` = `IndexError` of `chars[:, idx]` -/
 def encodeWith (variants : List Variant) (seqs : List Seq) : Option (List (List Int)) :=
   if seqs.all (fun s => variants.all (fun v => v.1 < s.length)) then
-    some (seqs.map (fun s => variants.map (fun v => alleleIndex v.2 (charAt s v.1))))
+    some (seqs.map (fun s => variants.map (fun v => allelicIndex v.2 (charAt s v.1))))
   else none
 
 /-- `LocusPrior.encode_haplotypes` -/
@@ -295,7 +295,7 @@ deriving Repr
 def sumRat (l : List Rat) : Rat := l.foldr (· + ·) 0
 
 /-- `denom = frequencies.sum(); frequencies /= denom if denom > 0 else nan` -/
-def normalise (raw : List Rat) : Option (List Rat) :=
+def normaliseFreqs (raw : List Rat) : Option (List Rat) :=
   if 0 < sumRat raw then some (raw.map (· / sumRat raw)) else none
 
 /-- `frequencies[keep]` / `tuple(s for s, k in zip(sequences, keep) if k)` -/
@@ -345,7 +345,7 @@ def finishPrior (keep : List Bool) (maskRef : Bool) (vals : List (Option Rat)) :
   let raw := kept.map (fun x => x.getD 0)
   let nan := kept.any Option.isNone
   { keep := keep, maskRef := maskRef, raw := raw, nanRaw := nan,
-    freqs := if nan then none else normalise raw }
+    freqs := if nan then none else normaliseFreqs raw }
 
 /-- `LocusPrior.from_variant_record` (mask / filter / frequency part) -/
 def locusPrior (r : RecordM) (tag : Option String) (filter : Option String) :
